@@ -87,6 +87,28 @@ def checkAll (fl : Flags) : List Item → Tok → List Tok → Option (Tok × Li
     | none => none
 end
 
+/-- the last token of `pre`, or `l` when `pre` is empty -/
+def lastOf (l : Tok) (pre : List Tok) : Tok := pre.getLast?.getD l
+
+mutual
+/-- DECLARATIVE derivation with spans: `Spans fl i pre` — the item derives exactly the tokens `pre`
+    (optional tokens present or absent), and EVERY node below has
+    `loc = (start of the first token of its own segment, end of the last token of its own segment)`
+    (`none` under `no_location`).  Children's segments are consecutive sub-segments of the parent's
+    (`SpansAll.cons`), hence nested in it and ordered. -/
+inductive Spans (fl : Flags) : Item → List Tok → Prop
+  | tok {k v t} : cls t = (k, v) → Spans fl (.tok k v) [t]
+  | optSome {k v t} : cls t = (k, v) → Spans fl (.optTok k v) [t]
+  | optNone {k v} : Spans fl (.optTok k v) []
+  | nla {k} : Spans fl (.nla k) []
+  | node {loc is f tl} : SpansAll fl is (f :: tl) → loc = locOf fl f (lastOf f (f :: tl)) →
+      Spans fl (.node loc is) (f :: tl)
+  | nodeEmpty {loc is} : SpansAll fl is [] → Spans fl (.node loc is) []   -- (no view has an empty node)
+inductive SpansAll (fl : Flags) : List Item → List Tok → Prop
+  | nil : SpansAll fl [] []
+  | cons {i is p1 p2} : Spans fl i p1 → SpansAll fl is p2 → SpansAll fl (i :: is) (p1 ++ p2)
+end
+
 end Item
 
 /-! ### views: the grammar productions -/
@@ -288,11 +310,15 @@ def yieldDocument (d : Document) : List TokClass := (documentV d).yield
 
 /-! ### well-formedness -/
 
+def isNonNull : TypeRef → Bool
+  | .nonNull _ _ => true
+  | _ => false
+
 /-- `NonNullType : NamedType ! | ListType !` -/
 def wfType : TypeRef → Bool
   | .named _ => true
   | .list t _ => wfType t
-  | .nonNull t _ => wfType t && (match t with | .nonNull _ _ => false | _ => true)
+  | .nonNull t _ => wfType t && !isNonNull t
 
 def notBoolNull (v : Text) : Bool := v ≠ K.true_ ∧ v ≠ K.false_ ∧ v ≠ K.null_
 
